@@ -268,6 +268,22 @@ def run(ctx):
     ctx.check(bad is None and bool(upd), "R12.4", f.short, "complete-updates-cache",
               message="set_trial_state_values(COMPLETE) can return without _update_cache after the trial was published: best_trial goes stale",
               how="explored with state=COMPLETE: every normal path to exit passes _update_cache, dominated by _set_trial", witness=bad)
+    # the cache maintainer reads the current best, compares and writes: it must run in the same critical
+    # section that published the trial, otherwise two finishing threads interleave and the better one's
+    # update is overwritten by the other's stale comparison
+    from sa.util import class_lock_fields, lock_section_of, parent_map
+    locks = class_lock_fields(im)
+    for mname2 in ("set_trial_state_values", "create_new_trial"):
+        f2 = im.methods[mname2]
+        pm2 = parent_map(f2.node)
+        ucalls = [c for c in own_nodes(f2.node) if isinstance(c, ast.Call) and self_attr(c.func) == UPD]
+        pcalls = [c for c in own_nodes(f2.node) if isinstance(c, ast.Call) and (self_attr(c.func) == "_set_trial" or
+                  (isinstance(c.func, ast.Attribute) and c.func.attr == "append" and norm(c.func.value).endswith(".trials")))]
+        secs = {id(lock_section_of(c, pm2, locks)) for c in ucalls + pcalls}
+        ok = bool(locks) and bool(ucalls) and bool(pcalls) and all(lock_section_of(c, pm2, locks) is not None for c in ucalls + pcalls) and len(secs) == 1
+        ctx.check(ok, "R12.4", f2.short, "cache-update-in-publishing-critical-section",
+                  message=f"InMemoryStorage.{mname2}: the best-trial cache is updated outside the critical section that publishes the trial: "
+                          f"concurrent completions can leave best_trial_id pointing at the worse trial", how="publication and cache update inside one `with self._lock` statement")
     f = im.methods["create_new_trial"]
     g = CFG(f.node, name=f.qualname)
     upd = [n for n in g.stmt_nodes() for c in n.calls() if self_attr(c.func) == UPD]
@@ -352,6 +368,30 @@ def run(ctx):
     ctx.check(ok, "R12.5", f.short, "feasible-only-when-asked", message="feasibility filter is not under `if consider_constraint`", how="dominated by the True edge")
     norm_calls = [c for c in own_nodes(f.node) if isinstance(c, ast.Call) and dotted(c.func) == "_normalize_value"]
     ctx.check(len(norm_calls) >= 1, "R12.5", f.short, "values-normalised", message="objective values are not passed through _normalize_value", how="call present")
+    # Study.best_trials: whether the feasibility filter applies is decided over the whole history
+    # ("some trial has recorded constraints"), not from one trial: trial 0 may have failed or been added
+    # without constraints in a constrained study.
+    f = st.methods.get("best_trials")
+    ctx.require(f is not None, "R12.5: Study.best_trials vanished")
+    bdefs = single_defs(f.node)
+    pcalls = [c for c in own_nodes(f.node) if isinstance(c, ast.Call) and (dotted(c.func) or "").endswith("_get_pareto_front_trials")]
+    ctx.require(len(pcalls) == 1, "R12.5: Study.best_trials no longer calls _get_pareto_front_trials")
+    cc = kwarg(pcalls[0], "consider_constraint", 1)
+    e = resolve(cc, bdefs) if cc is not None else None
+    ok = False
+    if isinstance(e, ast.Call) and dotted(e.func) == "any" and e.args and isinstance(e.args[0], (ast.GeneratorExp, ast.ListComp)):
+        comp = e.args[0]
+        gen = comp.generators[0]
+        it = norm(resolve(gen.iter, bdefs))
+        elt = comp.elt
+        all_trials = (it.startswith("self.get_trials(") or it.startswith("self._get_trials(") or it == "self.trials") and "states" not in it
+        member = isinstance(elt, ast.Compare) and len(elt.ops) == 1 and isinstance(elt.ops[0], ast.In) and "_CONSTRAINTS_KEY" in norm(elt.left) \
+            and norm(elt.comparators[0]).endswith(".system_attrs") and not gen.ifs and len(comp.generators) == 1
+        ok = all_trials and member
+    ctx.check(ok, "R12.5", f.short, "constrained-iff-any-trial-has-constraints",
+              message=f"best_trials decides `consider_constraint` by `{norm(e)[:90] if e is not None else None}`, not by `any(_CONSTRAINTS_KEY in t.system_attrs for t in <all trials>)`: "
+                      f"in a constrained study whose inspected trial has no recorded constraints the feasibility filter is switched off and infeasible trials are returned as the Pareto front",
+              how="existential test over every trial of the study")
     for name, attr in (("best_value", "value"), ("best_params", "params")):
         f = st.methods.get(name)
         ctx.require(f is not None, f"R12.5: Study.{name} vanished")
